@@ -7,9 +7,12 @@ import (
 	"go/parser"
 	"go/token"
 	"path/filepath"
+	"regexp"
+	"sort"
 	"strconv"
 	"strings"
 	"testing/fstest"
+	"time"
 
 	g "github.com/philhassey/goatlang"
 )
@@ -121,7 +124,7 @@ func evalBoth(src string, optimize bool) (o evalObs) {
 		}
 		var p []string
 		for _, v := range rets {
-			p = append(p, descr(v, vm))
+			p = append(p, canonMaps(descr(v, vm)))
 		}
 		o.rets = strings.Join(p, ",")
 	}()
@@ -153,6 +156,18 @@ func loadBoth(src string, optimize bool) (o evalObs) {
 	}()
 	o.out = out.String()
 	return
+}
+
+// withTimeout runs f in a goroutine; ok = false when it did not finish in time (the goroutine is abandoned).
+func withTimeout(d time.Duration, f func() evalObs) (evalObs, bool) {
+	ch := make(chan evalObs, 1)
+	go func() { ch <- f() }()
+	select {
+	case o := <-ch:
+		return o, true
+	case <-time.After(d):
+		return evalObs{}, false
+	}
 }
 
 func testTableStrings() []string {
@@ -226,8 +241,19 @@ func cmdC02Diff(seed uint64, n int, dir string) {
 		if strings.Contains(s, "time.Sleep") || strings.Contains(s, "rand.") || strings.Contains(s, "os.") || strings.Contains(s, "time.Now") {
 			continue
 		}
+		src := s
+		a, ok1 := withTimeout(3*time.Second, func() evalObs { return evalBoth(src, false) })
+		if !ok1 {
+			st.Histogram["test-table string does not terminate (skipped)"]++
+			continue
+		}
+		b, ok2 := withTimeout(10*time.Second, func() evalObs { return evalBoth(src, true) })
+		if !ok2 {
+			st.mismatchG("test-table|termination", optMismatch{Kind: "test-table", Src: s, What: "terminates with the optimizer off, not with it on"})
+			continue
+		}
 		st.add("test-table string", s)
-		cmpObs(st, "test-table", s, evalBoth(s, false), evalBoth(s, true))
+		cmpObs(st, "test-table", s, a, b)
 	}
 	// (2) generated programs of every profile
 	kinds := map[string]int{}
@@ -245,4 +271,15 @@ func cmdC02Diff(seed uint64, n int, dir string) {
 		cmpObs(st, "generated-"+prof, src, loadBoth(src, false), loadBoth(src, true))
 	}
 	st.write(dir + "/C02_diff_stats.json")
+}
+
+var flatMapRe = regexp.MustCompile(`map\[([^\[\]]*)\]`)
+
+// canonMaps sorts the entries of (flat) map renderings: goatlang prints multi-entry maps in Go map order.
+func canonMaps(s string) string {
+	return flatMapRe.ReplaceAllStringFunc(s, func(m string) string {
+		parts := strings.Fields(m[4 : len(m)-1])
+		sort.Strings(parts)
+		return "map[" + strings.Join(parts, " ") + "]"
+	})
 }
